@@ -61,6 +61,24 @@ def gen_cases(rng, tier):
                       'vec': fqeio.random_state(rng, norb, keys, density=0.8),
                       'vec2': fqeio.random_state(rng, norb, keys, density=0.8),
                       'code': rng.choice([None, None, 'jw', 'parity', 'bk'])})
+    # more orbitals (10-14 qubits), sparse states: index and sign per determinant beyond the toy sizes
+    for _ in range(5 if tier == 'quick' else 30):
+        norb = rng.randint(5, 7)
+        mode = rng.choice(['ns', 'sb', 'nb'])
+        if mode == 'ns':
+            na, nb = rng.randint(1, norb - 1), rng.randint(1, norb - 1)
+            nn, sz = na + nb, na - nb
+        elif mode == 'sb':
+            nn, sz = rng.randint(2, 2 * norb - 2), 0
+        else:
+            nn, sz = 0, rng.randint(-norb + 1, norb - 1)
+        keys = fqeio.sector_keys(norb, mode, nn, sz)
+        basis = fqeio.basis_of(norb, keys)
+
+        def sp():
+            return [[a, b, rng.randint(-3, 3) or 1, rng.randint(-3, 3)] for a, b in rng.sample(basis, min(len(basis), 16))]
+        cases.append({'kind': 'export', 'norb': norb, 'mode': mode, 'n': nn, 'sz': sz, 'vec': sp(), 'vec2': sp(),
+                      'code': rng.choice([None, 'jw', 'parity', 'bk']), 'big': True})
     for _ in range(40 if tier == 'quick' else 250):
         norb = rng.randint(1, 2 if tier == 'quick' else 3)
         nq = 2 * norb
@@ -110,6 +128,9 @@ def _sparse(vec):
 
 
 def run_impl(case, mode):
+    if case.get('big') and mode != 'C':
+        # the reference path converts through OpenFermion operators and a Cirq simulator: minutes per state at 10-14 qubits
+        return {'skipped': True}
     import numpy
     import fqe
     norb = case['norb']
@@ -228,6 +249,8 @@ def _cmp_sparse(got, want, label, bad):
 
 
 def compare(case, got, exp, mode):
+    if got.get('skipped'):
+        return []
     if 'exc' in got or 'crash' in got:
         return ['raised %s: %s' % (got.get('exc', 'CRASH'), str({k: got[k] for k in got if k != 'tb'})[:300])]
     bad = []
